@@ -7,7 +7,10 @@ import TexelVerif.NN.Refine
       that `unMakeMove` restores exactly the earlier position is property C02, here it is the definition of `unmake`;
     * copy construction / assignment / `deSerialize` / `connectPosition` = `forceFullEval()`; the game's own undo
       information survives it, so later take-backs pop an *empty* evaluator stack;
-    * a null move (`setWhiteMove`, `setEpSquare`) does not call the evaluator at all. -/
+    * a null move (`setWhiteMove`, `setEpSquare`) does not call the evaluator at all.
+    Caveat: `unmake` is *defined* as restoring the whole board saved by the matching `make`.  The real `unMakeMove`
+    only undoes the move itself, so a direct `setPiece` between a `makeMove` and its `unMakeMove` (which no engine
+    code does) makes the real history ill-formed (`OpOK` of the pop fails); the harness rejects such inputs. -/
 namespace NN
 
 inductive HOp
